@@ -277,7 +277,8 @@ func (b *assignmentBuilder) createWithConverter(lhs, rhs bmodel.Node, converter 
 		}
 
 		rhsNode, ok := b.resolveExpr(converter.Src(), root)
-		if !ok {
+		if !ok || rhsNode.ReturnsError() {
+			// A getter that also returns an error cannot be an argument of the converter call.
 			return nil
 		}
 
